@@ -39,11 +39,11 @@ ENCODED = [
     "tdgl.device.device:Device.terminal_info",
 ]
 BOUNDS = {
-    "quick": dict(devices=["bar2", "tee3"], terminals="2..3", acceptance_terminals=[2, 3, 4]),
-    "thorough": dict(devices=["bar2", "tee3", "cross4"], terminals="2..4", acceptance_terminals=[2, 3, 4, 5]),
+    "quick": dict(devices=["bar2", "tee3"], terminals="2..3", acceptance_terminals=[2, 3]),
+    "thorough": dict(devices=["bar2", "tee3", "cross4"], terminals="2..4", acceptance_terminals=[2, 3, 4]),
 }
 ASSUMPTIONS = [
-    "one step from an arbitrary state: supercurrent an arbitrary edge field (the identity is linear in it), psi' arbitrary (opaque psi-kernel), A(t_n), A(t_n-1) arbitrary, cell areas and dual edge lengths arbitrary positive reals, edge lengths geometric, terminal membership concrete (real device meshes)",
+    "one step from an arbitrary state: supercurrent an arbitrary edge field (the identity is linear in it), psi' arbitrary (opaque psi-kernel), A(t_n), A(t_n-1) arbitrary, cell areas and dual edge lengths arbitrary positive reals, edge lengths symbolic within 10% of the geometric ones, terminal membership concrete (real device meshes)",
     "LU contract: mu is *any* solution of L mu = rhs (solvability of the singular Neumann system for balanced currents is part of the contract)",
     "exact reals for the conservation identity",
     "acceptance: standard model of floating-point arithmetic (relative error <= 2^-53 per operation, no underflow/overflow); inputs exactly balanced over the reals",
@@ -77,8 +77,9 @@ def cases(tier, seed):
 def body(H, case):
     if case.kind == "accept":
         return body_accept(H, case)
-    # edge lengths stay geometric (they order the terminals); areas and dual lengths are symbolic
-    dev = S.symbolic_device(H, case.dev, case.seed, lengths=False)
+    # edge lengths are symbolic within +-10% of the geometric ones (this keeps the ordering of
+    # terminals by length mostly decided); areas and dual lengths are arbitrary positive reals
+    dev = S.symbolic_device(H, case.dev, case.seed, length_band=0.1)
     mesh = dev.mesh
     em = mesh.edge_mesh
     ns, ne = len(mesh.sites), len(em.edges)
@@ -245,7 +246,7 @@ def body_accept(H, case):
         if "sum of all terminal currents" not in str(e):
             raise
         accepted = False
-    H.prove(f"balanced currents on {n} terminals are accepted", accepted)
+    H.prove(f"balanced currents on {n} terminals are accepted", accepted, timeout=60 if n <= 3 else 600)
 
 
 def fp_search(n, timeout_s=120):
